@@ -277,9 +277,9 @@ Proof.
        destruct (remove_sub_frame _ _ _ _ _ Heqo) as (Ep & Ec & Es & Ew & _);
        destruct (remove_sub_cases _ _ _ _ _ Heqo) as [x [Ex [-> _]]];
        eapply inv_release; eauto;
-       [eapply no_entry_after_remove; eauto
-       |destruct k; reflexivity
-       |destruct k; simpl; try tauto; intros _; change (ctxc s i = true); apply (I7 _ HI i); rewrite Heqs0; simpl; auto]).
+       try (eapply no_entry_after_remove; eauto; fail);
+       try (destruct k; reflexivity);
+       try (destruct k; simpl; try tauto; intros _; change (ctxc s i = true); apply (I7 _ HI i); rewrite Heqs0; simpl; auto; fail)).
   - (* AClose *) inv_step H. pose proof (inv_shut _ _ _ _ _ HI Heqp) as HI1.
     destruct (shut_frame _ _ _ _ _ Heqp) as (Ep & Ec & Es & Ew & _).
     match goal with Hpc : pc s ?i = SClose _ _ |- _ =>
@@ -315,4 +315,4 @@ Proof.
   - inv_step H; eapply inv_ext; eauto.
   - inv_step H; eapply inv_ext; eauto.
   - inv_step H; eapply inv_ext; eauto.
-Admitted.
+Qed.
